@@ -186,7 +186,9 @@ func runReq(t []string) string {
 	}
 	opts := []kgo.Opt{
 		kgo.SeedBrokers("127.0.0.1:1"),
-		kgo.Dialer(func(context.Context, string, string) (net.Conn, error) { return nil, errors.New("no network in this harness") }),
+		kgo.Dialer(func(context.Context, string, string) (net.Conn, error) {
+			return nil, errors.New("no network in this harness")
+		}),
 		kgo.ClientID(cid),
 		kgo.ManualFlushing(),
 		kgo.ProducerLinger(0),
